@@ -33,6 +33,15 @@ def contract(target, properties, **kw):
     return deco
 
 
+class RealRaise(Exception):
+    """An exception raised while the *real* function was running (an outcome, matched against the contract)."""
+
+    def __init__(self, exc):
+        super().__init__(repr(exc))
+        self.exc = exc
+        self.tb = "".join(traceback.format_exception(type(exc), exc, exc.__traceback__))[-2500:]
+
+
 class Contract:
     """Base class.  Subclasses define:
     cases: list[str]
@@ -46,7 +55,7 @@ class Contract:
     properties: list
     cases = ["default"]
     kind = "contract"  # or "lemma" (pure SMT over contracts), "canary", "bounded"
-    expected_exceptions = (Exception,)
+    expected_exceptions = (RealRaise,)
     max_paths = 4096
 
     def __init__(self):
@@ -55,6 +64,19 @@ class Contract:
             self.mod, self.owner, self.fn = loader.resolve(self.target)
 
     # helpers ------------------------------------------------------------------------------------
+    def real(*a, **kwargs):
+        """self.real(fn, *args, **kwargs): run real code; its exceptions are outcomes, exceptions
+        elsewhere in the harness are crashes"""
+        _self, fn, *args = a
+        try:
+            return fn(*args, **kwargs)
+        except EngineLimit:
+            raise
+        except RecursionError:
+            raise EngineLimit("recursion limit")
+        except Exception as e:
+            raise RealRaise(e)
+
     def call(self, case):
         raise NotImplementedError
 
@@ -245,6 +267,8 @@ def run_contract(cls, tier="quick", cross=False):
                     verdict = "refuted"
                     r.model, r.failing_path = model, p
                     r.detail = "path %s: counter-model %s" % (p.decisions, _model_str(model))
+                    if p.outcome == "raise":
+                        r.detail += "\nreal code raised: " + getattr(p.value, "tb", repr(p.value))
                     break
                 if v == "unknown":
                     verdict = "unknown"
